@@ -420,5 +420,5 @@ def p3(h, st):
     it = NoisyGenericGate(h, g, 3, st["spec"], (px, py, pz, p), st["noisy"])
     c.__dict__ = {"_gates": it, "_qubit_indices": set(range(3)), "_qubits_simulated": 3, "name": "any"}
     h.call(TC, "translate_c_to_cirq", c, nm)
-    h.check("the loop body was entered once for the generic gate", it.iterations == 1)
+    h.shape("the loop body was entered once for the generic gate", it.iterations == 1)
     h.done()
